@@ -99,6 +99,8 @@ def process_all_requirements(pyscript_folder, requirements_paths, requirements_f
                     new_version = UNPINNED_VERSION
                 else:
                     new_version = parts[1]
+                    # a malformed version raises ValueError, so the line is ignored like any invalid line
+                    Version(new_version)
                 pkg_name = parts[0]
 
                 current_pinned_version = all_requirements_to_install.get(pkg_name, {}).get(ATTR_VERSION)
